@@ -5,12 +5,85 @@ from vcheck import DiffProperty
 
 SIZES = [16, 24, 32, 64, 88, 128, 216, 256]
 LIM = 65535
-ARITY = {"set": 2, "setz": 2, "raw": 2, "copy": 2, "copyn": 1, "cmp": 2, "cmpz": 2, "cmpn": 2,
+ARITY = {"set": 2, "setz": 2, "raw": 2, "seta": 3, "setaz": 2, "copy": 2, "copyn": 1, "cmp": 2, "cmpz": 2, "cmpn": 2,
          "ineq": 2, "new": 1, "node": 1,
          # members of the C++ class identifier (harness/c16_cxx.cpp)
          "xset": 2, "xsetz": 2, "xraw": 2, "xeq": 2, "xeqz": 2, "xeqn": 2, "xname": 1,
          "xcopy": 2, "xctor": 2, "xnew": 2, "xitem": 1}
 ITEM_IDENT = 24     # item<T>: 32 bytes, identifier part constructed with total = 24
+
+# mpt_identifier_set(id, data(id) + off, len) while the content is INLINE and source and destination ranges overlap
+# (0 < off < len): memcpy(id->_val, id->_val + off, len) on overlapping ranges -- undefined, ASan memcpy-param-overlap.
+# docs/C16_alias_overlap.diff (memmove) repairs it; the model is the repaired code.  False keeps exactly these inputs
+# out of the generated cases; flip to True once the fix is committed.
+ALIAS_INLINE_OVERLAP = True
+
+
+def gen_bytes(d):
+    """the bytes a data token stands for (harness get_data / driver data_of)"""
+    if d == "-":
+        return b""
+    if d[0] == "g":
+        f = d[1:].split(".")
+        n, seed = int(f[0]), int(f[1])
+        b = bytearray(1 + ((seed * 31 + i * 7 + i // 253) % 255) for i in range(n))
+        if len(f) > 2 and int(f[2]) < n:
+            k = int(f[2])
+            b[k] = 1 if b[k] == 255 else b[k] + 1
+        return bytes(b)
+    return bytes.fromhex(d)
+
+
+class Names:
+    """what the identifiers of a case hold (the list-of-names specification, in Python): used by the generator to
+    know where a source inside the identifier's own content lies and what the result has to be"""
+
+    def __init__(self, mx):
+        self.mx = list(mx)
+        self.val = [b""] * len(mx)
+
+    def alias_arg(self, i, off, n):
+        """(off', len', source is inline, ranges overlap) of seta (n >= 0) / setaz (n None) -- self_arg of IdentModel.v"""
+        cur = self.val[i]
+        off = min(off, len(cur))
+        rest = cur[off:]
+        if n is None:
+            k = rest.find(b"\0")
+            ln = k if k >= 0 else len(rest)
+        else:
+            ln = min(n, len(rest))
+        inline = len(cur) <= self.mx[i]
+        return off, ln, inline, inline and 0 < off < ln
+
+    def step(self, o):
+        k = o[0]
+        if k in ("new", "node", "cmp", "cmpz", "cmpn", "ineq"):
+            return None
+        i = int(o[1])
+        if i >= len(self.val):
+            return None
+        if k in ("set", "setz"):
+            b = gen_bytes(o[2])
+            if k == "setz" and b"\0" in b:
+                b = b[:b.index(b"\0")]
+            if len(b) + 1 <= LIM:
+                self.val[i] = b + b"\0"
+        elif k == "raw":
+            n = int(o[2])
+            if 0 <= n <= LIM:
+                self.val[i] = bytes(n)
+        elif k == "copyn":
+            self.val[i] = b""
+        elif k == "copy":
+            j = int(o[2])
+            if j < len(self.val):
+                self.val[i] = self.val[j]
+        elif k in ("seta", "setaz"):
+            off, ln, inline, ov = self.alias_arg(i, int(o[2]), int(o[3]) if k == "seta" else None)
+            before = len(self.val[i])
+            self.val[i] = self.val[i][off:off + ln] + b"\0"
+            return (i, before, off, ln, inline, ov)
+        return None
 
 
 def hx(bs):
@@ -76,7 +149,9 @@ class C16(DiffProperty):
     harness_env = vcheck.ASAN_LEAK_ENV
     rule = ("cases = 1..4 identifiers on exact-size heap storage (sizes 16,24,32,64,88,128,216,256 and random 16..256, or from "
             "mpt_identifier_new) + a history over set(text, explicit and strlen length)/set(NULL,n)/copy/copy(NULL)/compare(text)/"
-            "compare(NULL,n)/inequal/new/node; quick: for every size the full (previous length x new length) table over the lengths "
+            "compare(NULL,n)/inequal/new/node/set from a name INSIDE the identifier's own current content (data+off with explicit or strlen "
+            "length: prefix stripping, truncation in place; content inline, at the capacity or allocated, result allocated or inline; "
+            "inline sources with overlapping ranges are held back by ALIAS_INLINE_OVERLAP until docs/C16_alias_overlap.diff is committed); quick: for every size the full (previous length x new length) table over the lengths "
             "around 0, the 4-byte start of the overlaid pointer, its end (12), the inline capacity -3..+2, twice the capacity, 300 and "
             "65533/65534 (text) resp. 65535 (raw), the too-long lengths 65535/65536, once by set-after-set and once by copy from a "
             "second identifier of every size, each followed by compare with the equal and a one-byte-different name and by inequal; "
@@ -108,11 +183,11 @@ class C16(DiffProperty):
                "malloc is assumed to succeed"]
     level_text = ("proof: Coq theorems C16_set_get / C16_set_get_cstring / C16_set_raw / C16_set_too_long_refused / "
                   "C16_refused_unchanged / C16_copy_equal_src_untouched / C16_compare_iff_equal / C16_compare_cstring_iff_equal / "
-                  "C16_inequal_iff_equal / C16_step_refines_names / C16_history_refines_names / C16_heap_discipline / C16_new_capacity / "
+                  "C16_inequal_iff_equal / C16_step_refines_names / C16_set_from_own_content / C16_history_refines_names / C16_heap_discipline / C16_new_capacity / "
                   "C16_new_limit / C16_class_set_name_is_set / C16_class_assign_is_copy / C16_class_equal_iff_equal / C16_class_name_reads / "
                   "C16_class_set_name_then_name / C16_class_copy_ctor_equal_src_untouched / C16_class_ctor_unset / "
                   "C16_class_destroy_all_no_live_block state, for every inline capacity >= 12 (storage size 16..256 and beyond), every content length up to the "
-                  "16-bit limit, every previous content (inline or allocated) and every history of set/copy/clear/compare/inequal "
+                  "16-bit limit, every previous content (inline or allocated) and every history of set (name from a caller buffer or from inside the identifier's own content)/copy/clear/compare/inequal "
                   "operations and of the members of the C++ class (set_name, equal, name, operator=, destruction followed by copy "
                   "construction or construction, so the capacity of a slot changes) on any number of identifiers (no bound), that the transcribed mechanism (inline bytes overlaying the pointer "
                   "field, ghost heap of allocation tokens) reads back exactly the bytes and length that were set, copies without touching "
@@ -129,7 +204,8 @@ class C16(DiffProperty):
                   "Theorems are closed under the global context (no axioms).")
     technique = "Coq refinement proof (overlaid inline/allocated storage + ghost heap -> plain byte strings) + differential correspondence check"
     assumptions = ["malloc succeeds", "identifier storage is at least 16 bytes (sizeof(struct identifier)) and at most 256",
-                   "caller buffers hold the announced number of bytes / a terminated string",
+                   "caller buffers hold the announced number of bytes / a terminated string; a name may lie inside the identifier's own content "
+                   "(inline ranges that overlap: modelled as memmove, see docs/C16_alias_overlap.diff), not inside another identifier's storage",
                    "an identifier is initialised once before use and not shared between threads"]
 
     # ------------------------------------------------------------------ two harness binaries, one model run
@@ -232,6 +308,15 @@ class C16(DiffProperty):
                 for m in sorted({n // 2, n - 1, n - 8, 5, 12}):
                     if 0 <= m < n:
                         yield self.join(hdr, ops[:k] + [[o[0], o[1], "g%d.1" % m if m else "-"]] + ops[k + 1:])
+            if o[0] in ("seta", "setaz"):
+                for m in sorted({0, 1, int(o[2]) // 2, int(o[2]) - 1}):
+                    if 0 <= m < int(o[2]):
+                        yield self.join(hdr, ops[:k] + [[o[0], o[1], str(m)] + o[3:]] + ops[k + 1:])
+                if o[0] == "seta":
+                    n = int(o[3])
+                    for m in sorted({n // 2, n - 1}):
+                        if 0 <= m < n:
+                            yield self.join(hdr, ops[:k] + [o[:3] + [str(m)]] + ops[k + 1:])
             if o[0] == "xnew" and int(o[2]) > 16:
                 yield self.join(hdr, ops[:k] + [[o[0], o[1], "16"]] + ops[k + 1:])
             if o[0] in ("raw", "cmpn", "new", "node", "xraw", "xeqn"):
@@ -287,6 +372,7 @@ class C16(DiffProperty):
             if new >= LIM - 1:
                 cl.add("len>=65534")
             ln[i] = new
+        names = Names(mx) if any(o[0] in ("seta", "setaz") for o in ops) else None
         for o in ops:
             k = o[0]
             if k in ("new", "node"):
@@ -297,6 +383,16 @@ class C16(DiffProperty):
                 continue
             if k[0] == "x":
                 cl.add("cxx")
+            if names is not None and k[0] != "x":
+                a = names.step(o)
+                if a is not None:
+                    # the name lies inside the identifier's own inline bytes / its own block
+                    cl.add("alias")
+                    trans("alias-%s" % ("strlen" if k == "setaz" else "len"), i, a[3] + 1)
+                    cl.add("alias:from-%s" % ("inline" if a[4] else "block"))
+                    if a[5]:
+                        cl.add("alias:inline-overlap")
+                    continue
             if k in ("set", "setz", "xset", "xsetz"):
                 n = dlen(o[2]) + 1
                 if n > LIM:
@@ -391,9 +487,71 @@ class C16(DiffProperty):
                     cases.append(" ".join(["s%d" % sz, "s%d" % sz2, "--"] + o1 + o2b + ["copy", "0", "1"] + chkb))
         return cases
 
+    def alias_cases(self, rng, sizes, quick):
+        """the new name lies inside the identifier's own current content (prefix stripping, truncation in place):
+        for every size, previous contents inline / at the capacity / allocated (text, raw, copied from a second
+        identifier) x offsets 0, 1, 7, 12, last byte, end (x half, beyond the end) x explicit lengths that keep the
+        name allocated, make it inline, fill the capacity exactly, and the strlen interface; followed by a compare with
+        the expected part and a second aliasing set (second half of the new content)"""
+        cases = []
+        n = 0
+        for sz in sizes:
+            mx = sz - 4
+            prevs = [("n", x) for x in sorted({3, 11, mx - 1, mx, mx + 7, 2 * mx + 5, 300})] + [("r", mx), ("r", mx + 9)]
+            if not quick:
+                prevs += [("n", x) for x in (1, 12, mx - 2, mx + 1, 3 * mx)] + [("r", 5)]
+            prevs.append(("n", LIM - 1))
+            for pk, pl in prevs:
+                big = pl > 1000
+                ln = pl + 1 if pk == "n" else pl
+                offs = sorted({0, 1, 7, 12, ln - 1, ln} | (set() if quick else {4, ln // 2, ln - mx, ln - mx - 1, ln + 3}))
+                lens = sorted({0, 5, mx - 1, mx, ln} | (set() if quick else {1, 4, 12, mx + 1, ln - 8}))
+                if big:
+                    offs, lens = ([7, ln - mx] if quick else [0, 7, ln - mx, ln - 1]), [mx - 1, ln]
+                    if quick and sz not in (16, 256):
+                        continue
+                for off in offs:
+                    if off < 0:
+                        continue
+                    for al in [None] + [x for x in lens if 0 <= x and (x <= ln - off or x == ln)]:
+                        n += 1
+                        two = n % 3 == 0 and not big
+                        i = 1 if two else 0
+                        d = data(rng, pl, zeros=(n % 7 == 0)) if pk == "n" else None
+                        o1 = ["set" if n % 5 else "setz", "0", d] if d is not None else ["raw", "0", str(pl)]
+                        if o1[0] == "setz" and d[0] != "g":
+                            o1[0] = "set"
+                        hdr = ["s%d" % sz] + (["s%d" % SIZES[n % len(SIZES)]] if two else []) + ["--"]
+                        ops = [o1] + ([["copy", "1", "0"]] if two else [])
+                        oa = ["setaz", str(i), str(off)] if al is None else ["seta", str(i), str(off), str(al)]
+                        names = Names(self.maxes(hdr))
+                        for o in ops:
+                            names.step(o)
+                        if names.step(oa)[5] and not ALIAS_INLINE_OVERLAP:
+                            continue
+                        ops.append(oa)
+                        exp = names.val[i][:-1]
+                        if len(exp) <= 40 and not big:
+                            ops.append(["cmp", str(i), hx(exp)])
+                            ops.append(["cmp", str(i), altered(rng, hx(exp))])
+                        if two:
+                            ops.append(["ineq", "0", "1"])
+                        h = len(names.val[i])
+                        ops.append(["seta", str(i), str(h - h // 2), str(h // 2)])
+                        if not big:
+                            ops.append(["cmpn", str(i), str(h // 2)])
+                        cases.append(self.join(hdr, ops))
+        return cases
+
     def gen_op(self, rng, mx, ns, big):
         i = rng.randrange(ns)
-        k = rng.choice(["set", "set", "set", "setz", "raw", "copy", "copy", "copy", "copyn", "cmp", "cmpz", "cmpn", "ineq"])
+        k = rng.choice(["set", "set", "set", "setz", "raw", "copy", "copy", "copy", "copyn", "cmp", "cmpz", "cmpn", "ineq",
+                        "seta", "setaz"])
+        if k in ("seta", "setaz"):
+            off = rng.choice([0, 1, 4, 7, 12, mx[i] // 2, mx[i], mx[i] + 1, 2 * mx[i], 290])
+            if k == "setaz":
+                return [k, str(i), str(off)]
+            return [k, str(i), str(off), str(rng.choice(name_lengths(mx[i], False)))]
         if k in ("set", "setz", "cmp", "cmpz"):
             l = rng.choice(name_lengths(mx[i], big and rng.random() < 0.15) + [LIM] * (1 if rng.random() < 0.05 else 0))
             if k in ("setz", "cmpz") and l > 1000:
@@ -422,8 +580,16 @@ class C16(DiffProperty):
         mx = self.maxes(hdr)
         ops = []
         last = {}
+        names = Names(mx)
         for _ in range(rng.choice([2, 3, 5, 8, 12, 16])):
             o = self.gen_op(rng, mx, ns, big)
+            if o[0] in ("seta", "setaz"):
+                last.pop(o[1], None)
+                if not ALIAS_INLINE_OVERLAP and names.alias_arg(int(o[1]), int(o[2]), int(o[3]) if o[0] == "seta" else None)[3]:
+                    # keep the ranges apart: the second half of the content, at most as long as the first
+                    ln = len(names.val[int(o[1])])
+                    o = ["seta", o[1], str(ln - ln // 2), str(ln // 2)]
+            names.step(o)
             # make comparisons hit equal content half of the time
             if o[0] in ("cmp", "cmpz") and o[1] in last and rng.random() < 0.6:
                 d = last[o[1]]
@@ -449,6 +615,7 @@ class C16(DiffProperty):
         quick = tier == "quick"
         cases = self.ladder_cases()
         cases += self.pair_cases(rng, SIZES, 12 if quick else 1)
+        cases += self.alias_cases(rng, SIZES if quick else SIZES + [17, 20, 28, 33, 100, 200, 255], quick)
         if not quick:
             cases += self.pair_cases(rng, [17, 20, 28, 33, 100, 200, 255], 3)
         for i in range(2000 if quick else 60000):
